@@ -312,6 +312,29 @@ theorem iit_source_pair_answers_overlaps (es : List GenSrcIit.RCell) (ml : Nat) 
   refine ⟨es', _, R, h1, r1, ?_⟩
   rw [r2, ← GenSrcIit.length_cells es', h2, iit_find_correct _ _ q g2 g3 g4, g1]
 
+open RbV.Iit in
+/-- **`index` + `find_into` as written in the source answer every query with exactly the stored entries that overlap
+it** (as a multiset): for any sort satisfying `SortContract` (a permutation sorted by start — the trusted meaning of
+`sort_by_key(|e| e.interval.start)`), entries in any insertion order, fewer than `2^62` of them, any query and any dirty
+result buffer, the translated `index` sets the `indexed` flag without panicking and the translated `find_into` then fills
+the buffer with a permutation of `expected stored q`; a second `index` is a no-op -/
+theorem iit_source_index_find_answers (srt : List GenSrcIit.RCell → List GenSrcIit.RCell)
+    (hsrt : GenSrcIit.SortContract srt) (es : List GenSrcIit.RCell) (ml : Nat) (hml : ml ≤ 61)
+    (hn : es.length < 2 ^ 62) (q : Query) (res0 : List GenSrcIit.REntry) :
+    ∃ es' ml' R, Gen.SrcIit.index Iit.max3 srt es ml false = Rs.Res.ok (es', ml', true) ∧
+      Gen.SrcIit.index Iit.max3 srt es' ml' true = Rs.Res.ok (es', ml', true) ∧
+      Gen.SrcIit.findInto Iit.max3 es' ml' true (q.lo, q.hi) res0 = Rs.Res.ok R ∧
+      (R.map GenSrcIit.toEntry).Perm (expected ((GenSrcIit.cells es).map (·.e)) q) := by
+  have hl : (srt es).length < 2 ^ 62 := by rw [(hsrt es).1.length_eq]; exact hn
+  obtain ⟨es', h1, h2⟩ := GenSrcIit.index_eq_model srt hsrt es ml hn
+  obtain ⟨g1, g2, g3, g4⟩ := iit_index_establishes (GenSrcIit.cells (srt es)) ml (hsrt es).2
+  have hlev := GenSrcIit.indexCore_level_le (GenSrcIit.cells (srt es)) ml hml (by rw [GenSrcIit.length_cells]; exact hl)
+  obtain ⟨R, r1, r2⟩ := GenSrcIit.findInto_eq_model es' _ hlev q res0
+  refine ⟨es', _, R, h1, GenSrcIit.index_indexed srt es' _, r1, ?_⟩
+  rw [r2, ← GenSrcIit.length_cells es', h2, iit_find_correct _ _ q g2 g3 g4, g1]
+  unfold expected
+  exact (((hsrt es).1.map GenSrcIit.toCell).map (·.e)).filter _
+
 -- the translated `index_core` on five cells (n not a power of two, stale `max` fields): new `max` fields and level
 example : Gen.SrcIit.indexCore Iit.max3
     [((0 : Int), ((0 : Int), (2 : Int)), (0 : Int)), (1, (1, 3), 99), (2, (2, 3), 0), (3, (2, 4), -5), (4, (3, 50), 0)] 0
